@@ -35,8 +35,9 @@ def classify(term):
 
 def check_one(sh, term, width, frac, strat, want_stats=False):
     case = {'term': D.to_json(term), 'show': D.show(term), 'width': width, 'ribbon_frac': frac, 'strategy': strat}
+    share = (hash((D.size(term), width, strat)) % 2 == 0)
     try:
-        doc = D.build(term)
+        doc = D.build(term, {} if share else None)
     except AssertionError as e:
         sh.violation('str-child-rejected', 'a public combinator rejected a plain str child (AssertionError) although validate_doc accepts it: %s' % D.show(term), case)
         return None
@@ -52,6 +53,20 @@ def check_one(sh, term, width, frac, strat, want_stats=False):
         sh.violation('layout-raised', '%r for %s' % (e, D.show(term)), case)
         return None
     st = R.Stream(sdocs)
+    # laying the very same document object out again (and again at another width first) must give the same stream:
+    # documents are shared between prints (module-level constants), normalisation must leave no state behind
+    try:
+        list(layouts()[strat](doc, width=max(1, width // 2), ribbon_frac=frac))
+        again = R.Stream(list(layouts()[strat](doc, width=width, ribbon_frac=frac)))
+        if again.items != st.items:
+            sh.violation('second-layout-of-the-same-document-differs', 'laying out the same document object twice gives different streams: %r vs %r for %s' % (st.text(), again.text(), D.show(term)), case)
+            return None
+        sh.counters['re-layouts of the same document object verified'] += 1
+        if share:
+            sh.counters['documents built with shared sub-document objects'] += 1
+    except Exception as e:
+        sh.violation('layout-raised', 'second layout raised %r for %s' % (e, D.show(term)), case)
+        return None
     if not st.well_nested():
         sh.violation('annotations-not-nested', 'push/pop not properly nested: %r' % (sdocs,), case)
         return None
@@ -95,9 +110,10 @@ def configs(rng, term, n):
         if ws and rng.random() < 0.6:
             w = rng.choice(ws)
         else:
-            w = rng.randint(1, 40)
-        f = rng.choice(FRACS) if rng.random() < 0.7 else 1.0
-        out.append((min(40, max(1, w)), f))
+            w = rng.randint(1, 40) if rng.random() < 0.8 else rng.randint(41, 120)
+        c = rng.random()
+        f = rng.choice(FRACS) if c < 0.6 else (1.0 if c < 0.8 else rng.choice([0.75, 0.95, 0.25, 0.66, 0.05, round(rng.uniform(0.02, 1.0), 3)]))
+        out.append((min(120, max(1, w)), f))
     return out
 
 
